@@ -164,6 +164,13 @@ def check_case(case):
         obj = cls([m.copy() for m in model], check=False) if name != "UnitQuaternion" else cls([m.copy() for m in model], norm=False, check=False)
         if name == "UnitQuaternion":
             obj.data = [m.copy() for m in model]
+    elif kind == "array":
+        # documented constructor from an N x 4 array of quaternion rows (one value per row)
+        if name != "UnitQuaternion" or n < 2:
+            return out
+        model = [elem(name, k) for k in range(n)]
+        obj = cls(np.array([m.copy() for m in model]))
+        model = [m.copy() for m in model]
     else:
         model = [elem(name, k) for k in range(n)]
         obj = make(name, model)
@@ -231,6 +238,24 @@ def check_case(case):
                     for x, w in zip(items, model):
                         if not compare(name, x, [w], site, feats, out):
                             break
+        elif o == "nested_iter":
+            # two live iterations over the same object are independent, as for a list
+            try:
+                pairs = [(a, b_) for a in obj for b_ in obj]
+                zipped = list(zip(obj, obj))
+                inner = []
+                for a in obj:
+                    inner.append(len(list(obj)))
+            except Exception as e:  # noqa
+                out.append(V(site + "/raised", "nested iteration raised %r" % e, **feats))
+            else:
+                n_ = len(model)
+                if len(pairs) != n_ * n_ or len(zipped) != n_ or inner != [n_] * n_:
+                    out.append(V(site + "/count", "nested iteration over %d values: %d pairs (list: %d), zip(x, x) %d items, list(x) inside a loop %r"
+                                 % (n_, len(pairs), n_ * n_, len(zipped), inner), **feats))
+                elif n_ >= 2:
+                    compare(name, pairs[1][0], [model[0]], site + "/outer", feats, out)
+                    compare(name, pairs[1][1], [model[1]], site + "/inner", feats, out)
         elif o == "append":
             x = fresh()
             _mut(out, site, feats, lambda: obj.append(make(name, [x])), lambda: model.append(x))
@@ -440,7 +465,7 @@ def op_strategy():
     return st.one_of(
         st.tuples(st.just("get"), IDX).map(list),
         st.tuples(st.just("slice"), OPTIDX, OPTIDX, STEP).map(list),
-        st.just(["iter"]),
+        st.just(["iter"]), st.just(["nested_iter"]),
         st.just(["append"]),
         st.tuples(st.just("extend"), st.integers(0, 3)).map(list),
         st.tuples(st.just("insert"), IDX).map(list),
@@ -463,7 +488,7 @@ def machine_spec():
     rules = {
         "get": st.tuples(st.just("get"), IDX).map(list),
         "slice": st.tuples(st.just("slice"), OPTIDX, OPTIDX, STEP).map(list),
-        "iter": st.just(["iter"]), "append": st.just(["append"]),
+        "iter": st.just(["iter"]), "nested_iter": st.just(["nested_iter"]), "append": st.just(["append"]),
         "extend": st.tuples(st.just("extend"), st.integers(0, 3)).map(list),
         "insert": st.tuples(st.just("insert"), IDX).map(list),
         "pop": st.tuples(st.just("pop"), OPTIDX).map(list),
@@ -481,7 +506,7 @@ def machine_spec():
 
 def start_strategy():
     return st.one_of(st.tuples(st.just("alloc"), st.integers(0, 4)), st.tuples(st.just("list"), st.integers(1, 4)),
-                     st.tuples(st.just("loose"), st.integers(1, 4)),
+                     st.tuples(st.just("loose"), st.integers(1, 4)), st.tuples(st.just("array"), st.integers(2, 4)),
                      st.just(("empty", 0)), st.just(("default", 1))).map(list)
 
 
@@ -517,7 +542,7 @@ def gen_indices(tier):
                     yield {"kind": "ops", "cls": name, "start": start, "ops": [[o, i], ["iter"]]}
 
 
-ALPHABET = [["get", -1], ["get", 0], ["slice", 1, None, None], ["slice", None, -1, None], ["slice", None, None, -1],
+ALPHABET = [["nested_iter"], ["get", -1], ["get", 0], ["slice", 1, None, None], ["slice", None, -1, None], ["slice", None, None, -1],
             ["append"], ["extend", 2], ["extend", 1], ["insert", 0], ["insert", -1], ["pop", None], ["pop", 0],
             ["del", 0], ["del", -1], ["set", 0], ["set", -1], ["reverse"], ["clear"], ["ctor_list"],
             ["append_other"], ["append_multi"], ["copy"], ["ctor_list_other"], ["append_empty"], ["insert_empty", 0], ["set_empty", 0], ["ctor_list_multi"], ["ctor_list_empty_elem"]]
@@ -536,6 +561,11 @@ def gen_sequences(tier):
                     continue
                 for seq in itertools.product(ALPHABET, repeat=L):
                     yield {"kind": "ops", "cls": name, "start": start, "ops": [list(o) for o in seq]}
+    # every single and every pair of operations from the array-of-rows start state
+    for n in (2, 3):
+        for L in (1, 2):
+            for seq in itertools.product(ALPHABET, repeat=L):
+                yield {"kind": "ops", "cls": "UnitQuaternion", "start": ["array", n], "ops": [list(o) for o in seq]}
 
 
 def subchecks(tier):
